@@ -716,11 +716,12 @@ Proof.
       pose proof (IHe _ value Hw Hne st1) as Hx. unfold scope in *. rewrite Hx. clear Hx.
       destruct (expr_s f [[(stack_begin_name (i_name i), st_next sts)]] value st1) as [[y s1]| | |];
         cbn [on_env]; try reflexivity.
-      rewrite !bind_eq. rewrite set_stack_env. cbv beta iota. rewrite !bind_eq.
-      unfold lift at 1. unfold lookup_in at 1. unfold lift at 1.
-      destruct (lookup (with_env s1 []) (i_name i) sp) as [v| | |]; try reflexivity.
-      unfold ret at 1. cbv beta iota. rewrite !bind_eq. unfold lift at 1. unfold ty_in, lift.
-      destruct (ty_r (with_env s1 []) t) as [t'| | |]; reflexivity.
+      rewrite !bind_eq. rewrite set_stack_env. cbv beta iota.
+      unfold lookup_in, ty_in, lift. rewrite ?bind_eq. cbv beta iota.
+      match goal with |- context [lookup ?s (i_name i) sp] => destruct (lookup s (i_name i) sp) as [v| | |] end;
+        try reflexivity.
+      unfold ret at 1. repeat (progress (cbv beta iota; rewrite ?bind_eq)).
+      match goal with |- context [ty_r ?s t] => destruct (ty_r s t) as [t'| | |] end; reflexivity.
     + intros o e' s' H. peel H. inversion H. reflexivity.
   - (* PExternalDefinition *)
     split.
